@@ -41,6 +41,15 @@ def _member_name(
     return key
 
 
+def _array_index(key: Union[int, str]) -> int:
+    """Return reference token _key_ as an array index."""
+    try:
+        return int(key)
+    except ValueError as err:
+        # A non-standard "#" index token, for example.
+        raise JSONPatchError(f"invalid array index {key!r}") from err
+
+
 def _json_equal(left: object, right: object) -> bool:
     """Deep equality of JSON values, where a Boolean never equals a number."""
     if isinstance(left, bool) or isinstance(right, bool):
@@ -114,7 +123,7 @@ class OpAdd(Op):
                 else:
                     raise JSONPatchError("index out of range")
             else:
-                parent.insert(int(target), value)
+                parent.insert(_array_index(target), value)
         elif isinstance(parent, MutableMapping):
             parent[_member_name(parent, target)] = value
         else:
@@ -187,7 +196,7 @@ class OpAddAp(OpAdd):
             if obj is UNDEFINED:
                 parent.append(value)
             else:
-                parent.insert(int(target), value)
+                parent.insert(_array_index(target), value)
         elif isinstance(parent, MutableMapping):
             parent[_member_name(parent, target)] = value
         else:
@@ -218,7 +227,7 @@ class OpRemove(Op):
         if isinstance(parent, MutableSequence):
             if obj is UNDEFINED:
                 raise JSONPatchError("can't remove nonexistent item")
-            del parent[int(self.path.parts[-1])]
+            del parent[_array_index(self.path.parts[-1])]
         elif isinstance(parent, MutableMapping):
             if obj is UNDEFINED:
                 raise JSONPatchError("can't remove nonexistent property")
@@ -259,7 +268,7 @@ class OpReplace(Op):
         if isinstance(parent, MutableSequence):
             if obj is UNDEFINED:
                 raise JSONPatchError("can't replace nonexistent item")
-            parent[int(self.path.parts[-1])] = value
+            parent[_array_index(self.path.parts[-1])] = value
         elif isinstance(parent, MutableMapping):
             if obj is UNDEFINED:
                 raise JSONPatchError("can't replace nonexistent property")
@@ -299,7 +308,7 @@ class OpMove(Op):
             raise JSONPatchError("source object does not exist")
 
         if isinstance(source_parent, MutableSequence):
-            del source_parent[int(self.source.parts[-1])]
+            del source_parent[_array_index(self.source.parts[-1])]
         if isinstance(source_parent, MutableMapping):
             del source_parent[_member_name(source_parent, self.source.parts[-1])]
 
